@@ -52,6 +52,51 @@ def random_cfg(rng, tier):
                 entryStop=False, again="no", perms="all", cbs=[{"t": "rec"}], vals=[], vars=[])
 
 
+def tutorial_runs(rng, tier):
+    """The repository's own tutorial workloads (examples/Tutorial1-3): the files are read with the library's
+    loaders, a seeded window of consecutive rows is trained on with the tutorials' batch sizes / k, and the
+    recorded runs are validated like every other trace."""
+    import os
+    import torch
+    from qucumber.utils import data as qdata
+    ex = os.path.join(common.REPO, "examples")
+    t1 = os.path.join(ex, "Tutorial1_TrainPosRealWaveFunction")
+    t2 = os.path.join(ex, "Tutorial2_TrainComplexWaveFunction")
+    t3 = os.path.join(ex, "Tutorial3_TrainDensityMatrix")
+    if not all(os.path.isdir(p) for p in (t1, t2, t3)):
+        return []
+    src = []
+    d1 = qdata.load_data(os.path.join(t1, "tfim1d_data.txt"), os.path.join(t1, "tfim1d_psi.txt"))[0]
+    src.append(("positive", d1, None, dict(nh=10)))
+    d2, _, b2, _ = qdata.load_data(os.path.join(t2, "qubits_train.txt"), os.path.join(t2, "qubits_psi.txt"),
+                                   os.path.join(t2, "qubits_train_bases.txt"), os.path.join(t2, "qubits_bases.txt"))
+    src.append(("complex", d2, b2, dict(nh=2)))
+    d3, _, b3, _ = qdata.load_data_DM(os.path.join(t3, "N2_W_state_100_samples_data.txt"),
+                                      os.path.join(t3, "N2_W_state_target_real.txt"),
+                                      os.path.join(t3, "N2_W_state_target_imag.txt"),
+                                      os.path.join(t3, "N2_W_state_100_samples_bases.txt"),
+                                      os.path.join(t3, "N2_IC_bases.txt"))
+    src.append(("density", d3, b3, dict(nh=2, na=2)))
+    out = []
+    for typ, d, b, arch in src:
+        rows = d.to(torch.int64).tolist() if torch.is_tensor(d) else [[int(x) for x in r] for r in d]
+        nv = len(rows[0])
+        for rep in range(2 if tier == "quick" else 8):
+            N = rng.randint(6, 16 if tier == "quick" else 23)
+            lo = rng.randrange(0, len(rows) - N)
+            if b is not None and not any(all(ch == "Z" for ch in b[i]) for i in range(lo, lo + N)):
+                lo = next(i for i in range(len(rows) - N) if all(ch == "Z" for ch in b[i]))    # fit() needs an all-Z row
+            cfg = dict(type=typ, startEp=1, epochs=rng.randint(1, 2), N=N, posB=rng.choice([5, 100]),
+                       negB=rng.choice([0, 5]), data=[trainrun.row_code(r) for r in rows[lo:lo + N]],
+                       bases=[] if b is None else [trainrun.basis_code(list(b[i])) for i in range(lo, lo + N)],
+                       sched=False, entryStop=False, again="no", perms="all", cbs=[{"t": "rec"}], vals=[], vars=[])
+            st = trainrun.make_state(typ, nv, **arch)
+            real = trainrun.real_run(cfg, seed=rng.randrange(10 ** 6), k=rng.choice([1, 5]), lr=0.01, nn_state=st,
+                                     container=rng.choice(["tensor", "numpy"]))
+            out.append((cfg, real, dict(tutorial=typ, first_row=lo)))
+    return out
+
+
 def run(tier, seed):
     chk = common.Check(PID, tier, seed)
     rng = random.Random(seed)
@@ -91,6 +136,10 @@ def run(tier, seed):
             real2 = trainrun.real_run(cfg2, seed=rng.randrange(10 ** 6), k=rng.randint(0, 1),
                                       container=rng.choice(conts), nn_state=real["nn_state"])
             runs.append((cfg2, real2, dict(resumed_after=cfg)))
+
+    tut = tutorial_runs(rng, tier)
+    chk.extra["tutorial_workload_traces"] = len(tut)
+    runs += tut
 
     def swap_rows(lines):
         ln = copy.deepcopy(next(x for x in lines if any(e["k"] == "CG" and len(set(e["pos"])) >= 2 for e in x["ev"])))
